@@ -4,10 +4,9 @@ open Zconv
 let hmask = (1 lsl 62) - 1
 let hmix h x = ((h * 1000003) lxor (x land hmask)) land hmask
 
-let otype_of_int = function
-  | 0 -> Codec.SignedOffset | 1 -> Codec.UnsignedOffset | 2 -> Codec.A64_ADR | 3 -> Codec.A64_ADRP | 4 -> Codec.T32_ADR | 5 -> Codec.T32_BLX | 6 -> Codec.T32_B
-  | 7 -> Codec.T32_BCond | 8 -> Codec.A32_ADR | 9 -> Codec.A32_U23 | 10 -> Codec.A32_U23_0To3At0_4To7At8 | 11 -> Codec.A32_1To24At0_0At24
-  | _ -> failwith "otype"
+(* OffsetType values on the wire -> constructors: the position in the enumerator order re-extracted from fixup.h
+   (LayoutModel.otype_of_index, C17_otype_of_index_spec / C17_fixup_current), not a hand-written table *)
+let otype_of_int i = match Codec.otype_of_index (cz_of_int i) with Some t -> t | None -> failwith "otype"
 
 let mkfmt ty vs bits sh dl =
   { Codec.ty = otype_of_int ty; vsize = cz_of_int vs; bits = cz_of_int bits; shift = cz_of_int sh; discard = cz_of_int dl }
@@ -84,6 +83,12 @@ let () =
         let n = List.length ws in
         let ws = List.map string_of_cz ws @ ["0"; "0"; "0"; "0"] in
         Printf.printf "M %d %s %s %s %s\n" n (List.nth ws 0) (List.nth ws 1) (List.nth ws 2) (List.nth ws 3)
+      | "X" :: "13" :: x :: a :: _ ->
+        (* ROR #imm = EXTR Rd, Rn, Rn, #imm; the harness uses Rn = 5, shown in the immr column *)
+        let size = if x = "1" then 64 else 32 in
+        (match Codec.encode_ror_imm (cz_of_int size) (cz_of_string a) with
+         | Some s -> Printf.printf "X 1 %s %s 5 %s\n" x x (string_of_cz s)
+         | None -> print_endline "X 0 0 0 0 0")
       | "X" :: kind :: x :: a :: b :: _ ->
         let k = match int_of_string kind with
           | 0 | 1 | 2 -> Codec.Bfx | 3 | 4 | 5 | 6 -> Codec.Bfi | 7 | 8 | 9 -> Codec.Bfm | 10 -> Codec.ShLsl | 11 | 12 -> Codec.ShLsr
@@ -98,6 +103,8 @@ let () =
           if op = "8" then
             (if form = "0" then Codec.test_reg_imm tm_checked (cz_of_string size) (b acc) (b longform) (cz_of_string imm)
              else Codec.test_mem_imm tm_checked (cz_of_string size) (cz_of_string imm))
+          else if op = "12" || op = "13" || op = "14" || op = "15" then Some (Codec.rot_imm (cz_of_string size) (b longform) (cz_of_string imm))
+          else if op = "16" || op = "17" then Some (Codec.shld_imm (op = "17") (cz_of_string size) (cz_of_string imm))
           else if op = "10" then Codec.imul_imm tm_checked (form = "1") (cz_of_string size) (b longform) (cz_of_string imm)
           else if op = "11" then Codec.push_imm tm_checked (b longform) (cz_of_string imm)
           else if op = "9" then
